@@ -52,7 +52,10 @@ def locate_one(values, val, issorted=False, tol=None, side='left'):
                 # distances in floating point: integer labels would wrap around
                 dist = np.abs(values.astype(float) - val)
             else:
-                dist = np.abs(values - val)
+                with np.errstate(invalid='ignore'):
+                    dist = np.abs(values - val)
+            # an exact match is at distance 0 (for an infinite label, inf - inf is nan)
+            dist = np.where(values == val, 0, dist)
             match = np.argmin(dist)
         except TypeError as error:
             raise TypeError("`tol` parameter only valid for numeric axes")
